@@ -4,6 +4,8 @@
 # rewrite applied in memory to the source the engine reads; behaviour-preserving by construction) and run the task: no renaming
 # may produce a refuted obligation or a checker error - undecided ("the loop contract describes a local ... this function does
 # not have") is the expected answer where the contract names the local.  Exit 0 = no alarm.
+# FUZZ_MODE=ifswap: every `if c: A else: B` rewritten as `if not (c): B else: A`;  FUZZ_MODE=uncomp: every
+# `x = [e for t in it if c]` rewritten as `x = []` + an append loop (fresh loop variable names).
 HERE="$(cd "$(dirname "$0")/.." && pwd)"; cd "$HERE"
 bin/setup.sh >/dev/null 2>&1
 export PYTHONPATH="$HERE:$PYTHONPATH" PYTHONDONTWRITEBYTECODE=1 PYTHONHASHSEED=0
